@@ -135,6 +135,28 @@ class C13:
             else:
                 t, tm = pick_t(rng, pts, ks)
                 cases.append({'kind': 'corner', 'points': pts, 'ks': ks, 't': t, 'tmode': tm, 'family': fam, 'dtype': dtype})
+        # near-tie stream (added by the coordinator after seeded change C13-m1): heights that differ by one ulp or by a
+        # 1e-10 relative bump, so a tolerance comparison (isclose / rounding) in the running-minimum test is told apart
+        # from the exact `<=` the property states
+        for m in range({'quick': 80, 'search': 80, 'thorough': 1500}.get(tier, 80)):
+            n = rng.randint(3, nmax)
+            base = rng.choice([0.25, 1.0, 3.0, 1e-3, 1e6])
+            ys = []
+            y = base
+            for i in range(n):
+                u = rng.random()
+                if u < 0.35:
+                    y = math.nextafter(y, math.inf)
+                elif u < 0.5:
+                    y = math.nextafter(y, -math.inf)
+                elif u < 0.7:
+                    y = y * (1.0 + rng.choice([2e-10, -2e-10, 5e-13, 1e-9]))
+                elif u < 0.8:
+                    y = base
+                ys.append(y)
+            pts = [[float(i), ys[i]] for i in range(n)]
+            ks = [i for i in range(n) if rng.random() < 0.8]
+            cases.append({'kind': 'worst', 'points': pts, 'ks': ks, 'family': 'neartie', 'dtype': 'float'})
         # malformed stream (never a verdict): unsorted / repeated / out-of-range knees, NaN coordinates
         for m in range({'quick': 16, 'search': 4, 'thorough': 120}.get(tier, 16)):
             n = rng.randint(3, 8)
